@@ -1,10 +1,67 @@
 import VOPyVerif.Drv.Proto
-/-! Driver front end for property C05 (line protocol → executable model). -/
+import VOPyVerif.Model.Accuracy
+import VOPyVerif.Model.Steps
+/-! Driver front end for property C05 (VOGP / ε-PAL keep ε-isolated optima; `P` is internally
+non-ε-dominated).
+
+* `box <l> <u> <x>`            → `1` / `0` : `Accuracy.inBox` (truth inside a displayed rectangle)
+* `final <W> <s> <M> <P>`      → `<iso> <int> <isolated designs>` : `keepsIsolated`,
+  `internallyNondom` as `1`/`0`, then the list of isolated designs (information for the harness)
+* `isolated <W> <s> <M> <i>`   → `1` / `0`
+* `vround <n> <dom> <cov> <pess> <S> <P>` → `S';P'` (sorted) : one `Steps.vogpRound` with the oracles given
+  as row-major `n×n` bit tables (`dom[i][j]` = "region i is dominated by region j (+slack)", `cov[i][j]` =
+  "region i is covered by region j", `pess[j][i]` = "region j pessimistically dominates region i")
+
+`s` is the slack in objective space (`ε·u*` for VOGP, `ε·𝟙` for ε-PAL), `M` the matrix of true means.
+Guards (else `bad-op`): `M` non-empty, rows of `M`, `W` and `s` of one length, indices `< K`.
+-/
 namespace VOPy.Drv.C05
-open VOPy VOPy.Proto
+open VOPy VOPy.Proto VOPy.Accuracy
+
+def shapesOk (W : Mat) (s : Vec) (M : Mat) (P : List Nat) : Bool :=
+  match M with
+  | [] => false
+  | r :: _ =>
+    let m := r.length
+    M.all (fun x => decide (x.length = m)) && W.all (fun w => decide (w.length = m)) &&
+      decide (s.length = m) && P.all (fun i => decide (i < M.length))
+
+def muOf (M : Mat) : Nat → Vec := fun i => M.getD i []
+
+def tableRel (n : Nat) (bits : List Bool) : Steps.Rel :=
+  fun i j => decide (i < n) && decide (j < n) && bits.getD (i * n + j) false
+
+def fmtSets (l : List (List Nat)) : String := ";".intercalate (l.map fun s => fmtNats (Steps.sortNat s))
 
 def handle (args : List String) : String :=
   match args with
+  | ["vround", n, d, c, q, s, p] =>
+    match n.toNat?, parseBools d, parseBools c, parseBools q, parseNats s, parseNats p with
+    | some n, some d, some c, some q, some S, some P =>
+      if d.length = n * n ∧ c.length = n * n ∧ q.length = n * n ∧ (S ++ P).all (fun i => decide (i < n)) then
+        let r := Steps.vogpRound (tableRel n d) (tableRel n c) (tableRel n q) S P
+        fmtSets [r.1, r.2]
+      else bad
+    | _, _, _, _, _, _ => bad
+  | ["box", l, u, x] =>
+    match parseVec l, parseVec u, parseVec x with
+    | some l, some u, some x => fmtBool (inBox l u x)
+    | _, _, _ => bad
+  | ["final", w, s, mm, p] =>
+    match parseMat w, parseVec s, parseMat mm, parseNats p with
+    | some W, some s, some M, some P =>
+      if shapesOk W s M P then
+        let K := M.length
+        let mu := muOf M
+        fmtBool (keepsIsolated W s K mu P) ++ " " ++ fmtBool (internallyNondom W s mu P) ++ " " ++
+          fmtNats ((List.range K).filter (isolated W s K mu))
+      else bad
+    | _, _, _, _ => bad
+  | ["isolated", w, s, mm, i] =>
+    match parseMat w, parseVec s, parseMat mm, i.toNat? with
+    | some W, some s, some M, some i =>
+      if shapesOk W s M [i] then fmtBool (isolated W s M.length (muOf M) i) else bad
+    | _, _, _, _ => bad
   | _ => bad
 
 end VOPy.Drv.C05
